@@ -81,6 +81,7 @@ type Explorer struct {
 	ModelsHit   map[string]bool
 	MaxVectors  int
 	queryNo     int64
+	Repaired    int64
 	SkippedQ    int64
 	Instr       int64
 }
@@ -178,6 +179,7 @@ type Path struct {
 	QTimeout time.Duration
 	usedMapOrder bool
 	XCheckEvery int
+	NoRepair bool
 	known map[*sym.Term]bool
 	auxPrefix []uint64
 	tb map[*sym.Term]ival
@@ -265,7 +267,98 @@ func (p *Path) assertPC(t *sym.Term) {
 }
 
 // query checks pc ∧ extra. On Sat it returns a model over all variables created so far.
+// collectVars returns the variables occurring in t (bounded walk).
+func collectVars(t *sym.Term, out map[*sym.Term]bool, budget *int) {
+	if *budget <= 0 || t.IsConst() {
+		return
+	}
+	*budget--
+	if t.Op == sym.OpVar {
+		out[t] = true
+		return
+	}
+	for _, a := range t.Args {
+		collectVars(a, out, budget)
+	}
+}
+
+// tryRepair looks for a model of pc ∧ extra by changing one variable of the current model
+// (local search). A model found this way is checked against every conjunct of the path
+// condition, so the answer "sat" is exact; failure means nothing (the solver is asked).
+func (p *Path) tryRepair(extra *sym.Term) (sym.Model, bool) {
+	vars := map[*sym.Term]bool{}
+	budget := 40
+	collectVars(extra, vars, &budget)
+	if len(vars) == 0 || len(vars) > 6 || budget <= 0 {
+		return nil, false
+	}
+	// candidate values: constants and sub-term values occurring in extra, +-1, 0, max
+	cands := map[uint64]bool{0: true, 1: true}
+	var walk func(t *sym.Term, d int)
+	walk = func(t *sym.Term, d int) {
+		if d > 6 {
+			return
+		}
+		if t.W > 0 {
+			v := p.eval(t)
+			cands[v], cands[v+1], cands[v-1] = true, true, true
+		}
+		for _, a := range t.Args {
+			walk(a, d+1)
+		}
+	}
+	walk(extra, 0)
+	trials := 0
+	for v := range vars {
+		for c := range cands {
+			trials++
+			if trials > 48 {
+				return nil, false
+			}
+			val := c
+			if v.W == 0 {
+				val = c & 1
+			} else if v.W < 64 {
+				val = c & ((uint64(1) << uint(v.W)) - 1)
+			}
+			if p.model[v.Name] == val {
+				continue
+			}
+			m := make(sym.Model, len(p.model)+1)
+			for k, x := range p.model {
+				m[k] = x
+			}
+			if val == 0 {
+				delete(m, v.Name)
+			} else {
+				m[v.Name] = val
+			}
+			memo := map[*sym.Term]uint64{}
+			if sym.Eval(extra, m, memo) != 1 {
+				continue
+			}
+			ok := true
+			for _, t := range p.pc {
+				if sym.Eval(t, m, memo) != 1 {
+					ok = false
+					break
+				}
+			}
+			if ok {
+				return m, true
+			}
+		}
+	}
+	return nil, false
+}
+
 func (p *Path) query(extra *sym.Term, wantModel bool) (solver.Result, sym.Model) {
+	if wantModel && !p.NoRepair {
+		if m, ok := p.tryRepair(extra); ok {
+			atomic.AddInt64(&p.Ex.Repaired, 1)
+			return solver.Sat, m
+		}
+	}
 	ref := p.pr.Ref(extra)
 	p.sv.Send(p.pr.Flush())
 	p.sv.Push()
